@@ -9,7 +9,8 @@ use serde_json::json;
 
 /// tiny pattern language of the reference evaluator
 #[derive(Clone, Debug)]
-pub enum Pat { Lit(i64), Var(&'static str), Wild, Tup(Vec<Pat>), VecExact(Vec<Pat>), VecHead(Vec<Pat>), VecTail(Vec<Pat>), VecEmpty }
+pub enum Pat { Lit(i64), Var(&'static str), Wild, Tup(Vec<Pat>), VecExact(Vec<Pat>), VecHead(Vec<Pat>), VecTail(Vec<Pat>), /// fixed prefix, spread, fixed suffix: needs at least prefix + suffix elements
+  VecEnds(Vec<Pat>, Vec<Pat>), VecEmpty }
 
 #[derive(Clone, Debug)]
 pub enum V { N(i64), T(Vec<V>), Vc(Vec<i64>) }
@@ -42,6 +43,7 @@ pub fn matches(p: &Pat, v: &V, env: &mut Env) -> bool {
     (Pat::VecEmpty, V::Vc(x)) => x.is_empty(),
     (Pat::VecExact(ps), V::Vc(x)) => ps.len() == x.len() && ps.iter().zip(x.iter()).all(|(p, v)| matches(p, &V::N(*v), env)),
     (Pat::VecHead(ps), V::Vc(x)) => ps.len() <= x.len() && ps.iter().zip(x.iter()).all(|(p, v)| matches(p, &V::N(*v), env)),
+    (Pat::VecEnds(pre, suf), V::Vc(x)) => pre.len() + suf.len() <= x.len() && pre.iter().zip(x.iter()).all(|(p, v)| matches(p, &V::N(*v), env)) && suf.iter().zip(x[x.len() - suf.len()..].iter()).all(|(p, v)| matches(p, &V::N(*v), env)),
     (Pat::VecTail(ps), V::Vc(x)) => ps.len() <= x.len() && ps.iter().zip(x[x.len() - ps.len()..].iter()).all(|(p, v)| matches(p, &V::N(*v), env)),
     _ => false,
   }
@@ -198,18 +200,21 @@ pub fn cases(tier: Tier) -> Vec<Case> {
     Arm { text: "| [... l] => l + 3000", pat: Pat::VecTail(vec![Pat::Var("l")]), guard: Guard::None, body: Body::Lin("l", 1, 3000) },
     Arm { text: "| [7 ...] => 4000", pat: Pat::VecHead(vec![Pat::Lit(7)]), guard: Guard::None, body: Body::Const(4000) },
     Arm { text: "| [... 9] => 5000", pat: Pat::VecTail(vec![Pat::Lit(9)]), guard: Guard::None, body: Body::Const(5000) },
+    Arm { text: "| [p ... q] => p * 10 + q + 6000", pat: Pat::VecEnds(vec![Pat::Var("p")], vec![Pat::Var("q")]), guard: Guard::None, body: Body::Lin2("p", 10, "q6000") },
+    Arm { text: "| [p r ... q] => p * 10 + q + 7000", pat: Pat::VecEnds(vec![Pat::Var("p"), Pat::Var("r")], vec![Pat::Var("q")]), guard: Guard::None, body: Body::Lin2("p", 10, "q7000") },
+    Arm { text: "| [7 ... 9] => 8000", pat: Pat::VecEnds(vec![Pat::Lit(7)], vec![Pat::Lit(9)]), guard: Guard::None, body: Body::Const(8000) },
   ];
   for sel in ordered_selections(p5.len(), 2) {
     let mut arms: Vec<Arm> = sel.iter().map(|i| p5[*i].clone()).collect();
     arms.push(Arm { text: "| * => 0", pat: Pat::Wild, guard: Guard::None, body: Body::Const(0) });
     let body = arms.iter().map(|a| format!("  {}", a.text)).collect::<Vec<_>>().join("\n");
     let mut calls = vec![];
-    for (i, v) in [vec![7i64], vec![7, 8], vec![7, 8, 9], vec![1, 9], vec![5]].iter().enumerate() {
+    for (i, v) in [vec![7i64], vec![7, 8], vec![7, 8, 9], vec![1, 9], vec![5], vec![7, 9], vec![9], vec![7, 1, 2, 9]].iter().enumerate() {
       let r = reference(&arms, &V::Vc(v.clone()), &vec![]);
       let lit = format!("[{}]", v.iter().map(|x| x.to_string()).collect::<Vec<_>>().join(" "));
       calls.push((format!("v{i} := {lit}\nr@ := v{i}?\n{body}.", i = i, lit = lit, body = body), match r { Some(x) => Expect::Val(f64s(x)), None => Expect::MustError }));
     }
-    out.push(Case { family: "match-vector", def: String::new(), calls, locus: format!("match-vector:{}", sel.iter().map(|i| ["exact1", "exact2", "head", "tail", "head-lit", "tail-lit"][*i]).collect::<Vec<_>>().join(",")) });
+    out.push(Case { family: "match-vector", def: String::new(), calls, locus: format!("match-vector:{}", sel.iter().map(|i| ["exact1", "exact2", "head", "tail", "head-lit", "tail-lit", "ends", "ends-2-1", "ends-lit"][*i]).collect::<Vec<_>>().join(",")) });
   }
   // (G) enum subjects: variant arms in every order, a duplicate arm, a wildcard; coverage decides acceptance
   {
